@@ -11,25 +11,21 @@ def _recv(attr_node):
 
 
 def bind_sites(em):
-    """(func, cfg, store node) for every store ``X._is_bound = <not the constant False>``"""
+    """(func, cfg, store node) for every store that makes a variable bound: a value other than the "unbound" marker
+    written into the cell's state field (``X._is_bound = True``, or ``X._value = v`` for a cell with a marker)"""
     out = []
+    cell = em.cell()
     for f in em.repo.all_functions():
-        if not any(isinstance(n, ast.Attribute) and n.attr == '_is_bound' and isinstance(n.ctx, ast.Store)
+        if f.name == '__init__' and f.cls is cell.cls:
+            continue
+        if not any(isinstance(n, ast.Attribute) and n.attr == cell.state_field and isinstance(n.ctx, ast.Store)
                    for n in own_nodes(f.node)):
             continue
         cfg = em.cfg(f)
         for n in cfg.nodes:
-            if n.kind == 'store' and isinstance(n.ast, ast.Attribute) and n.ast.attr == '_is_bound':
-                v = n.info
-                if isinstance(v, ast.Constant) and v.value is False:
-                    continue
+            if cell.is_bind(n):
                 out.append((f, cfg, n))
     return out
-
-
-def _is_unbind(n, recv):
-    return n.kind == 'store' and isinstance(n.ast, ast.Attribute) and n.ast.attr == '_is_bound' and \
-        isinstance(n.info, ast.Constant) and n.info.value is False and _recv(n.ast) == recv
 
 
 def rule_undo_on_all_exits(em, rep, rid):
@@ -38,11 +34,12 @@ def rule_undo_on_all_exits(em, rep, rid):
     rep.rule(rid, 'every path from a store X._is_bound=True to EXIT(return|fall|exc|close), with throw and close '
                   'edges out of every yield on the way, passes a store X._is_bound=False (must-pass-through on the CFG)')
     sites = bind_sites(em)
+    cell = em.cell()
     rep.minimum('bind sites (stores of a non-False value into _is_bound)', len(sites), 1)
     for f, cfg, n in sites:
         recv = _recv(n.ast)
         key = '%s:%s._is_bound' % (f.qname, recv)
-        path = cfg.g.find_path(n, lambda m: m.kind == 'exit', avoid=lambda m: _is_unbind(m, recv))
+        path = cfg.g.find_path(n, lambda m: m.kind == 'exit', avoid=lambda m: cell.is_unbind(m, recv))
         rep.analysed_add('functions', f.qname)
         if path is not None:
             rep.violation(rid, key, 'a binding made here survives the exit of the generator: the path to %s '
@@ -50,7 +47,7 @@ def rule_undo_on_all_exits(em, rep, rid):
                           'or unwound by an exception)' % ('EXIT(%s)' % path[-1][1].info),
                           f.loc(n.stmt), cfg.describe_path(path))
         else:
-            ny = len([m for m in cfg.g.reach([n], avoid=lambda m: _is_unbind(m, recv)) if m.kind in ('yield', 'yieldfrom')])
+            ny = len([m for m in cfg.g.reach([n], avoid=lambda m: cell.is_unbind(m, recv)) if m.kind in ('yield', 'yieldfrom')])
             rep.ok(rid, key, 'all exits pass the unbind; %d suspension point(s) inside the bound region' % ny, f.loc(n.stmt))
 
 
@@ -86,6 +83,8 @@ def rule_bind_ownership(em, rep, rid):
                   'dominated by the test "not bound", the value stored was produced by get_value, and a comparison of '
                   'that value with self dominates the bind on its unequal side')
     owners = em.variable_class()
+    cell = em.cell()
+    CELLF = tuple(cell.fields)
     if len(owners) != 1:
         rep.violation(rid, 'owners', 'the binding cell is written by more than one class: %s' % [c.qname for c in owners])
         return
@@ -94,7 +93,7 @@ def rule_bind_ownership(em, rep, rid):
     count = 0
     for f in em.repo.all_functions():
         for n in own_nodes_ordered(f.node):
-            if isinstance(n, ast.Attribute) and n.attr in ('_is_bound', '_value') and isinstance(n.ctx, (ast.Store, ast.Del)):
+            if isinstance(n, ast.Attribute) and n.attr in CELLF and isinstance(n.ctx, (ast.Store, ast.Del)):
                 count += 1
                 key = '%s:%s' % (f.qname, norm(n))
                 if f.cls is var and is_name(n.value, 'self') and f.parent is None:
@@ -104,7 +103,7 @@ def rule_bind_ownership(em, rep, rid):
                                   'here are not undone by the binder\'s finally)' % var.qname, f.loc(n))
             if isinstance(n, ast.Call) and is_name(n.func, 'setattr') and len(n.args) >= 2:
                 names = _possible_strings(em, f, n.args[1])
-                if names is None or names & {'_is_bound', '_value'}:
+                if names is None or names & set(CELLF):
                     rep.violation(rid + 'a', '%s:%s' % (f.qname, norm(n)), 'setattr may write the binding cell', f.loc(n))
     rep.minimum('stores to the binding cell', count, 3)
     binders = {f for f, _, _ in bind_sites(em)}
@@ -112,7 +111,7 @@ def rule_bind_ownership(em, rep, rid):
         if f in binders or f.name == '__init__':
             continue
         for n in own_nodes_ordered(f.node):
-            if isinstance(n, ast.Attribute) and n.attr in ('_is_bound', '_value') and isinstance(n.ctx, (ast.Store, ast.Del)):
+            if isinstance(n, ast.Attribute) and n.attr in CELLF and isinstance(n.ctx, (ast.Store, ast.Del)):
                 rep.violation(rid + 'e', '%s:%s' % (f.qname, norm(n)), 'the binding cell is rewritten outside the binder (%s): the change is not '
                               'undone when the binding that it shortcuts is undone, so an older alias silently points somewhere else '
                               'after backtracking' % f.name, f.loc(n))
@@ -125,8 +124,8 @@ def rule_bind_ownership(em, rep, rid):
         # (b) dominated by "not bound"
         okb = False
         for t in dom[n]:
-            if t.kind == 'test' and '_is_bound' in norm(t.ast):
-                lab = _unbound_label(t.ast, recv)
+            if t.kind == 'test' and cell.mentions_state(t.ast):
+                lab = cell.unbound_label(t.ast, recv)
                 if lab is None:
                     continue
                 # the store must be unreachable when the unbound edge is removed
@@ -139,10 +138,13 @@ def rule_bind_ownership(em, rep, rid):
             rep.violation(rid + 'b', key, 'a variable may be bound while it is already bound (the earlier binding is '
                           'overwritten and cannot be restored)', f.loc(n.stmt))
         # (c) value stored is dereferenced
-        vstores = [m for m in dom[n] if m.kind == 'store' and isinstance(m.ast, ast.Attribute) and m.ast.attr == '_value'
-                   and _recv(m.ast) == recv]
+        if cell.kind == 'flag':
+            vstores = [m for m in dom[n] if m.kind == 'store' and isinstance(m.ast, ast.Attribute) and m.ast.attr == cell.value
+                       and _recv(m.ast) == recv]
+        else:
+            vstores = [n]           # the bind is the store of the value
         if not vstores:
-            rep.violation(rid + 'c', key, 'no store to %s._value dominates the bind' % recv, f.loc(n.stmt))
+            rep.violation(rid + 'c', key, 'no store to %s.%s dominates the bind' % (recv, cell.value), f.loc(n.stmt))
             continue
         last = max(vstores, key=lambda m: len(dom[m]))
         val = last.info
@@ -174,26 +176,18 @@ def rule_bind_ownership(em, rep, rid):
                 r = cfg.g.reach([cfg.entry], edge_ok=lambda lbl, a, b, t=t, lab=lab: not (a is t and lbl == lab))
                 if n not in r:
                     okd = True
+        if cell.kind == 'sentinel':
+            if isinstance(cell.sentinel, ast.Constant):
+                rep.violation(rid + 'f', key, 'the cell holds %s while the variable is unbound, and %s is also a value a variable can be '
+                              'bound to (a Python constant is a legal term): unify(X, %s) stores it and leaves X unbound although the '
+                              'unification succeeds' % (norm(cell.sentinel), norm(cell.sentinel), norm(cell.sentinel)), f.loc(n.stmt))
+            else:
+                rep.ok(rid + 'f', key, 'the "unbound" marker %s is a private object no term can be' % norm(cell.sentinel), f.loc(n.stmt))
         if okd:
             rep.ok(rid + 'd', key, 'self-unification is excluded before the bind', f.loc(n.stmt))
         else:
             rep.violation(rid + 'd', key, 'no test "value is not the variable itself" dominates the bind: X = X '
                           'would bind X to itself (get_value then never returns)', f.loc(n.stmt))
-
-
-def _unbound_label(test, recv):
-    """which out-edge of this test means 'recv is not bound'"""
-    t = test
-    if isinstance(t, ast.UnaryOp) and isinstance(t.op, ast.Not) and norm(t.operand) == recv + '._is_bound':
-        return 'true'
-    if norm(t) == recv + '._is_bound':
-        return 'false'
-    if isinstance(t, ast.Compare) and len(t.ops) == 1 and norm(t.left) == recv + '._is_bound' and \
-            isinstance(t.comparators[0], ast.Constant) and isinstance(t.comparators[0].value, bool):
-        eq = isinstance(t.ops[0], (ast.Eq, ast.Is))
-        val = t.comparators[0].value
-        return 'true' if (eq and val is False) or (not eq and val is True) else 'false'
-    return None
 
 
 # ---------------------------------------------------------------------------------------------
